@@ -1098,6 +1098,7 @@ pub fn gen_case(rng: &mut Rng, idx: usize, big: bool) -> Case {
                     2_000 * NS_PER_MS,
                     3_000_000_000 * NS_PER_MS, // > 2^31 ms
                     (1u64 << 31) * NS_PER_MS,
+                    ((1u64 << 32) + 150) * NS_PER_MS, // >= 2^32 ms: the low 32 bits are a small number
                 ]));
             }
             session.push((lim, tl));
@@ -1147,7 +1148,8 @@ fn direct(c: &mut Case, idx: usize, mut rng: Rng) {
     if c.string_api {
         return;
     }
-    let big_limits = [100 * NS_PER_MS, 2_000 * NS_PER_MS];
+    // (a limit of 2^32 ms and more must not be taken for its low 32 bits)
+    let big_limits = [100 * NS_PER_MS, 2_000 * NS_PER_MS, ((1u64 << 32) + 150) * NS_PER_MS, (3 * (1u64 << 32) + 20) * NS_PER_MS];
     match idx % 40 {
         // stdin is the only stream, the input does not fit the pipe, the child is slow to read it, every read has a time limit
         7 | 27 => {
